@@ -246,12 +246,31 @@ func suiteFilter(r *Rng, n int, thorough bool, o *Out) {
 		if r.chance(1, 4) {
 			depth = 1 + r.IntN(3)
 		}
+		untouched := r.chance(1, 6)
+		if untouched {
+			// resources nobody ever set a field of: every field holds its zero value, also in
+			// a soft resource that just came to this type from another one
+			for k := range vals {
+				if a, ok := typ.Attrs[k]; ok {
+					vals[k] = jsonapi.GetZeroValue(a.Type, a.Nullable)
+				} else if typ.Rels[k].ToOne {
+					vals[k] = ""
+				} else {
+					vals[k] = []string{}
+				}
+			}
+			o.stat("res.untouched")
+		}
 		f := genFilterTree(r, typ, vals, depth, o)
 		fs := sxFilter(f)
 		soft := newSoft(typ)
-		fill(soft, "1", vals)
 		wr := newWrapped(typ)
-		fill(wr, "1", vals)
+		if untouched {
+			soft = newSoftVia(r, typ, o)
+		} else {
+			fill(soft, "1", vals)
+			fill(wr, "1", vals)
+		}
 		// encode before evaluating: checkSlice sorts lists in place
 		opS := lst("filter", "eval", sxResView(soft), fs)
 		opW := lst("filter", "eval", sxResView(wr), fs)
